@@ -509,7 +509,8 @@ func runC13Body(tier string, shard, shards int, rep *SeqReport, lastOp, curFam *
 				for _, port := range []string{"5000", "0 0"} {
 					s := newBindSys([]string{"10.0.0.1", "10.0.0.2"}, nil, lastOp)
 					p2 := port
-					ops := []string{"listenudp " + ip1 + " " + port, "close 0", "listenudp " + ip2 + " " + p2, "reclose",
+					// traffic reaches the first socket before it is closed (anything remembered per destination must be forgotten with it)
+					ops := []string{"listenudp " + ip1 + " " + port, "probe own1 0", "probe own2 0", "probe lo 0", "close 0", "listenudp " + ip2 + " " + p2, "reclose",
 						"probe own1 0", "probe own2 0", "probe lo 0", "listenudp " + ip2 + " " + p2, "listenudp own1 5000", "listenudp any 5000", "probe own1 0"}
 					var hist []string
 					for _, op := range ops {
